@@ -8,7 +8,7 @@ Import ListNotations.
 (* ------------------------------------------------------------------ observations *)
 Inductive oclass := OOk | OErr (a : abort) | OPanic.
 
-Inductive sobs := SNone | SPanic | SDone (failed : bool) (inv : list tpkg) (sts : list (ext * status)).
+Inductive sobs := SNone | SPanic | SDone (failed : bool) (inv : list tpkg) (sts : list (ext * status)) (fnd : list finding).
 
 Record obs := {
   o_class : oclass;                     (* filesystem.Run: returned nil error / which error / panicked *)
@@ -31,6 +31,7 @@ Record wcase := {
   w_roots : list node;
   w_exts : list ext;
   w_req : list (ext * path);                       (* FileRequired table: listed pairs are true *)
+  w_statreq : list (ext * Z);                      (* extractors whose FileRequired also wants api.Stat().Size() >= threshold *)
   w_xt : list (ext * path * xres);                 (* Extract table: default XRes [] false *)
   w_pat : list (N * path * bool);                  (* go-git Match table: listed triples are true *)
   w_skip : list path;
@@ -44,6 +45,7 @@ Record wcase := {
   w_maxs : Z;
   w_fatal : bool;
   w_cancel : cancel;
+  w_dets : list (list N * list finding);            (* detectors given to scalibr.Scan: name, findings returned *)
   w_group : N;                                     (* C08: cases with the same non-zero group are listings of the same content *)
   w_obs : obs }.
 
@@ -65,6 +67,7 @@ Definition lookup_xt (tb : list (ext * path * xres)) (e : ext) (p : path) : xres
 Definition cfg_of_case (w : wcase) : cfg := {|
   c_exts := w_exts w;
   c_required := fun e p => existsb (ep_eqb (e, p)) (w_req w);
+  c_statreq := fun e => option_map snd (find (fun x => ln_eqb (fst x) e) (w_statreq w));
   c_extract := lookup_xt (w_xt w);
   c_pat := fun pf rel isdir =>
              existsb (fun x => N.eqb (fst (fst x)) pf && ln_eqb (snd (fst x)) rel && Bool.eqb (snd x) isdir) (w_pat w);
@@ -118,11 +121,14 @@ Definition oclass_eqb (a b : oclass) : bool :=
   | _, _ => false
   end.
 
+Definition finding_eqb (a b : finding) : bool :=
+  ln_eqb (f_pub a) (f_pub b) && ln_eqb (f_ref a) (f_ref b) && ln_eqb (f_extra a) (f_extra b).
+
 Definition sobs_eqb (a b : sobs) : bool :=
   match a, b with
   | SNone, _ | _, SNone => true                 (* Scan not run for this case *)
   | SPanic, SPanic => true
-  | SDone f i s, SDone g j t => Bool.eqb f g && list_eqb tpkg_eqb i j && list_eqb est_eqb s t
+  | SDone f i s x, SDone g j t y => Bool.eqb f g && list_eqb tpkg_eqb i j && list_eqb est_eqb s t && list_eqb finding_eqb x y
   | _, _ => false
   end.
 
@@ -132,20 +138,22 @@ Definition obs_eqb (a b : obs) : bool :=
   && sobs_eqb (o_scan a) (o_scan b).
 
 (* ------------------------------------------------------------------ what the model predicts *)
-Definition model_scan (c : cfg) (roots : list node) : sobs :=
-  match scan c roots with
+Definition model_scan (c : cfg) (dets : list (list N * list finding)) (roots : list node) : sobs :=
+  match scan c dets roots with
   | ScanPanic _ => SPanic
-  | ScanDone r => SDone (sr_failed r) (sr_inv r) (sr_status r)
+  | ScanDone r => SDone (sr_failed r) (sr_inv r) (sr_status r) (sr_findings r)
   end.
 
-Definition model_obs (c : cfg) (roots : list node) : obs :=
+Definition model_obs_d (c : cfg) (dets : list (list N * list finding)) (roots : list node) : obs :=
   match run c roots with
-  | RPanic st _ => {| o_class := OPanic; o_events := filter observable (s_events st); o_inv := []; o_status := []; o_scan := model_scan c roots |}
-  | RErr inv a st => {| o_class := OErr a; o_events := filter observable (s_events st); o_inv := inv; o_status := []; o_scan := model_scan c roots |}
-  | ROk inv sts st => {| o_class := OOk; o_events := filter observable (s_events st); o_inv := inv; o_status := sts; o_scan := model_scan c roots |}
+  | RPanic st _ => {| o_class := OPanic; o_events := filter observable (s_events st); o_inv := []; o_status := []; o_scan := model_scan c dets roots |}
+  | RErr inv a st => {| o_class := OErr a; o_events := filter observable (s_events st); o_inv := inv; o_status := []; o_scan := model_scan c dets roots |}
+  | ROk inv sts st => {| o_class := OOk; o_events := filter observable (s_events st); o_inv := inv; o_status := sts; o_scan := model_scan c dets roots |}
   end.
 
-Definition case_model_ok (w : wcase) : bool := obs_eqb (model_obs (cfg_of_case w) (w_roots w)) (w_obs w).
+Definition model_obs (c : cfg) (roots : list node) : obs := model_obs_d c [] roots.
+
+Definition case_model_ok (w : wcase) : bool := obs_eqb (model_obs_d (cfg_of_case w) (w_dets w) (w_roots w)) (w_obs w).
 
 Fixpoint bad_indices {A} (f : A -> bool) (l : list A) (i : nat) : list nat :=
   match l with
@@ -255,7 +263,8 @@ Definition pkey_eqb (a b : list N * pkg) : bool :=
 Definition sobs_perm_equiv (a b : sobs) : bool :=
   match a, b with
   | SPanic, SPanic => true
-  | SDone f i s, SDone g j t => Bool.eqb f g && list_eqb pkey_eqb i j && list_eqb est_perm_b s t
+  | SDone f i s x, SDone g j t y => Bool.eqb f g && list_eqb pkey_eqb i j && list_eqb est_perm_b s t
+                                    && list_eqb (fun a b => ln_eqb (f_ref a) (f_ref b) && ln_eqb (f_extra a) (f_extra b)) x y
   | SNone, SNone => true
   | _, _ => false
   end.
@@ -293,8 +302,8 @@ Definition sorted_leb {A} (cmp : A -> A -> comparison) : list A -> bool :=
 
 Definition scan_sorted (o : obs) : bool :=
   match o_scan o with
-  | SDone _ inv sts =>
-      sorted_leb cmp_packages inv && sorted_leb cmp_status sts
+  | SDone _ inv sts fnd =>
+      sorted_leb cmp_packages inv && sorted_leb cmp_status sts && sorted_leb cmp_findings fnd
       && forallb (fun x => sorted_leb bcmp (p_locs (snd x))) inv
   | _ => true
   end.
@@ -474,7 +483,7 @@ Definition c10_iff_on_obs (w : wcase) : bool :=
       | CancelAtExtract _ => true
       end
       && match o_scan (w_obs w) with
-         | SDone failed _ _ => Bool.eqb failed (negb (oclass_eqb (o_class (w_obs w)) OOk))
+         | SDone failed _ _ _ => Bool.eqb failed (negb (oclass_eqb (o_class (w_obs w)) OOk))
          | _ => true
          end
   | _ => true
@@ -485,3 +494,19 @@ Definition case_spec_ok_C10 (w : wcase) : bool :=
 
 (* the iff statement without the UseGitignore restriction: to recognise the known panic *)
 Definition c10_panics_on_obs (w : wcase) : bool := oclass_eqb (o_class (w_obs w)) OPanic.
+
+(* ------------------------------------------------------------------ C01 oracle, several roots *)
+(* per scan root: the Extract calls of a Run over several roots are the concatenation of what each root owes *)
+Definition c01_multi_domain (w : wcase) : bool :=
+  let c := cfg_of_case w in
+  (1 <? length (w_roots w))%nat
+  && forallb (fun t => wf_tree t && fault_free t && dom_C01 c t) (w_roots w)
+  && no_limits c && xt_no_panic w && nodup_b ln_eqb (w_exts w)
+  && match w_paths w with [] => true | _ => false end.
+
+Definition c01_multi_spec_on_obs (w : wcase) : bool :=
+  let c := cfg_of_case w in
+  oclass_eqb (o_class (w_obs w)) OOk
+  && list_eqb ep_eqb (calls (o_events (w_obs w))) (flat_map (expected_calls c) (w_roots w)).
+
+Definition case_spec_ok_C01_multi (w : wcase) : bool := negb (c01_multi_domain w) || c01_multi_spec_on_obs w.
